@@ -196,6 +196,17 @@ CHECKS = {
         "signs move the real weight in the documented direction; zero upper/lower bound probes leave exactly the other part applied.",
         "same driver and tolerances as C08/C18; known finding: LinearHomeostasis' depressing part is non-positive (see known_findings.json)",
     ),
+    "C14": (
+        "model_checking", "DESIGN.md §3 C14",
+        "exhaustive enumeration of setter sequences from every constructor configuration on real components, differential against a "
+        "freshly constructed component of the configuration reached",
+        "For 4 synapse classes, 4 neuron classes, LinearDense (incl. synapse replacement) and 4 reducers: from every constructor "
+        "configuration every setter sequence of length <=2 (quick) / <=3 (thorough) over dt, delay, batchsz, duration, inplace, synapse, "
+        "dtype is applied; at every node getters must report the assignment, no other getter may change, every internal record must have "
+        "the size/shape/dtype/temporal parameters of a fresh component, and after clear() outputs (incl. delayed reads, dumps) must be "
+        "bitwise equal on all boolean input histories of length 2 (3).",
+        "configuration value sets are small; layers are covered through their connection/neuron components; tolerance none (bitwise)",
+    ),
 }
 
 PENDING_REASON = "check not built yet in this session (claimed in DESIGN.md; will move to checks when its exploration exists)"
